@@ -48,6 +48,7 @@ def cases(tier, seed):
     out.append({'g': ['named', 'blob_chain', 20, 34, False], 'directed': False, 'ws': 1, 'schemes': ['bin']})
     for g in G.many_paths(200):
         out.append({'g': g, 'directed': g[-1] is True, 'ws': 1, 'schemes': ['bin']})
+    out.append({'kind': 'degenerate', 'g': ['named', 'path', 2], 'directed': False, 'ws': 0, 'schemes': []})
     return out
 
 
@@ -70,6 +71,10 @@ def tie_free(L):
 
 
 def run(case, bct, REC):
+    if case.get('kind') == 'degenerate':
+        from .common import degenerate_sizes
+        REC.tag(PROP, 'exec')
+        return degenerate_sizes(REC, PROP, bct, [('betweenness_bin', ()), ('betweenness_wei', ()), ('edge_betweenness_bin', ()), ('edge_betweenness_wei', ())])
     A = G.build(case['g'])
     directed = case['directed']
     n = len(A)
@@ -103,7 +108,7 @@ def run(case, bct, REC):
                 layout_variants_agree(REC, PROP, fname, getattr(bct, fname), L)
         if sc == 'bin' and n <= 30:
             for fname in ('betweenness_bin', 'edge_betweenness_bin'):
-                dtype_variants_agree(REC, PROP, fname, getattr(bct, fname), L)
+                dtype_variants_agree(REC, PROP, fname, getattr(bct, fname), L, matrix=True)
         if sc == 'bin':
             ok, b = call(REC, PROP, 'betweenness_bin', bct.betweenness_bin, L)
             if ok:
